@@ -136,7 +136,8 @@ Definition ameta := option (list (string * meta)).    (* AccountMetadata = map[s
 Record posting := { p_src : string; p_dst : string; p_amount : Z; p_asset : string }.
 
 (* ledger.Transaction = TransactionData{postings, metadata, timestamp, reference} + id + reverted *)
-Record tx := { t_postings : list posting; t_meta : meta; t_time : T c; t_ref : string; t_id : Z; t_reverted : bool }.
+Record tx := { t_postings : option (list posting);   (* None = nil slice (JSON null) *)
+                t_meta : meta; t_time : T c; t_ref : string; t_id : Z; t_reverted : bool }.
 
 (* targetType + targetId of the metadata payloads: account address, or transaction id (a big.Int) *)
 Inductive target := TAccount (a : string) | TTx (id : Z).
@@ -185,7 +186,7 @@ Definition ameta_json (am : ameta) : json :=
 Definition posting_json (p : posting) : json :=
   JObj [(k_source, JStr (p_src p)); (k_destination, JStr (p_dst p)); (k_amount, JNum (p_amount p)); (k_asset, JStr (p_asset p))].
 Definition tx_json (t : tx) : json :=
-  JObj ([(k_postings, JArr (map posting_json (t_postings t))); (k_metadata, meta_json (t_meta t));
+  JObj ([(k_postings, match t_postings t with None => JNull | Some ps => JArr (map posting_json ps) end); (k_metadata, meta_json (t_meta t));
          (k_timestamp, JStr (tfmt c (t_time t)))]
         ++ (if String.eqb (t_ref t) EmptyString then [] else [(k_reference, JStr (t_ref t))])   (* omitempty *)
         ++ [(k_id, JNum (t_id t)); (k_reverted, JBool (t_reverted t))]).
@@ -247,8 +248,8 @@ Definition of_tx (j : option json) : res tx :=
   match j with
   | Some (JObj m) =>
       do ps <- match get k_postings m with
-               | Some (JArr l) => mapM of_posting l
-               | None | Some JNull => Ok []
+               | Some (JArr l) => do ps <- mapM of_posting l; Ok (Some ps)
+               | None | Some JNull => Ok None
                | Some _ => Err
                end;
       do md <- of_meta (get k_metadata m);
@@ -472,7 +473,7 @@ Definition posting_eqb (a b : posting) : bool :=
   String.eqb (p_src a) (p_src b) && String.eqb (p_dst a) (p_dst b) && Z.eqb (p_amount a) (p_amount b)
   && String.eqb (p_asset a) (p_asset b).
 Definition tx_eqb (a b : tx tc) : bool :=
-  list_eqb posting_eqb (t_postings tc a) (t_postings tc b) && meta_eqb (t_meta tc a) (t_meta tc b)
+  opt_eqb (list_eqb posting_eqb) (t_postings tc a) (t_postings tc b) && meta_eqb (t_meta tc a) (t_meta tc b)
   && String.eqb (t_time tc a) (t_time tc b) && String.eqb (t_ref tc a) (t_ref tc b)
   && Z.eqb (t_id tc a) (t_id tc b) && Bool.eqb (t_reverted tc a) (t_reverted tc b).
 Definition target_eqb (a b : target) : bool :=
@@ -494,8 +495,11 @@ Definition entry_eqb (a b : entry tc) : bool :=
   && String.eqb (l_date tc (e_log tc a)) (l_date tc (e_log tc b))
   && String.eqb (l_ik tc (e_log tc a)) (l_ik tc (e_log tc b))
   && Z.eqb (e_id tc a) (e_id tc b) && opt_eqb String.eqb (e_hash tc a) (e_hash tc b).
+Definition is_panic {A} (r : res A) : bool := match r with Panic => true | _ => false end.
+Definition is_err {A} (r : res A) : bool := match r with Err => true | _ => false end.
+
 (* constructors at the text codec, for the cases written by the harness *)
-Definition mk_tx (ps : list posting) (m : meta) (ts rf : string) (id : Z) (rv : bool) : tx tc :=
+Definition mk_tx (ps : option (list posting)) (m : meta) (ts rf : string) (id : Z) (rv : bool) : tx tc :=
   {| t_postings := ps; t_meta := m; t_time := ts : T tc; t_ref := rf; t_id := id; t_reverted := rv |}.
 Definition mk_entry (p : payload tc) (d ik : string) (id : Z) (h : option string) : entry tc :=
   {| e_log := {| l_payload := p; l_date := d : T tc; l_ik := ik |}; e_id := id; e_hash := h : option (Hs tc) |}.
@@ -520,6 +524,14 @@ Record case := {
   cs_rowdec : res (entry tc);
   cs_hashin : string
 }.
+
+(* what the harness writes: a decoding outcome equal to the entry itself is abbreviated *)
+Inductive dec := DSame | DOk (e : entry tc) | DErr | DPanic.
+Definition dec_res (e : entry tc) (d : dec) : res (entry tc) :=
+  match d with DSame => Ok e | DOk e' => Ok e' | DErr => Err | DPanic => Panic end.
+Definition mk_case (prev : option string) (e : entry tc) (j : json) (d : dec) (rd : json) (rdec : dec) (hin : string) : case :=
+  {| cs_prev := prev; cs_entry := e; cs_json := j; cs_dec := dec_res e d; cs_rowdata := rd; cs_rowdec := dec_res e rdec;
+     cs_hashin := hin |}.
 
 Definition prev_of (h : option string) : option (entry tc) :=
   match h with
